@@ -52,6 +52,12 @@ def patterns(ctx):
     for n in ([5, 6] if ctx.thorough else [5]):
         for edges in gen.all_sym_graphs(n):
             yield n, list(edges) + [(j, i) for i, j in edges]
+    # random directed patterns on 5..7 vertices (the complete universes are too large)
+    rg = ctx.sub('directed-large')
+    for t in range(400 if not ctx.thorough else 6000):
+        n = rg.choice([5, 5, 6, 7])
+        dens = rg.choice([0.15, 0.3, 0.5])
+        yield n, [(i, j) for i in range(n) for j in range(n) if i != j and rg.random() < dens]
 
 
 def csr_pair(n, arcs):
@@ -134,12 +140,20 @@ def run(ctx):
             oracle(ctx, 'cljp_naive_splitting/color=%d' % colorflag, n, arcs, spl, dict(base, colorflag=colorflag), cover=True)
         oracle(ctx, 'rs_cf_splitting', n, arcs, spl1, base, indep_dom=sym)
         # --- public routines (subsample the big universe for the randomised ones)
-        if n <= 3 or k % 7 == 0 or ctx.thorough:
+        if n <= 3 or k % 7 == 0 or n >= 5 and k % 3 == 0 or ctx.thorough:
             diag = rng.random() < 0.5
             S = gen.digraph_csr(n, arcs, diag=diag)
             S.indptr = S.indptr.astype(I32)
             S.indices = S.indices.astype(I32)
-            cs = dict(base, diag=diag)
+            # the splittings depend on the PATTERN of S only: every other sample carries values with S[i,j] = -S[j,i]
+            # (they cancel in S + S^T if someone forgets to replace them by ones), the rest random nonzero values
+            signed = k % 2 == 0
+            rows_of = np.repeat(np.arange(n), np.diff(S.indptr))
+            if signed:
+                S.data[:] = np.where(rows_of < S.indices, 1.0, np.where(rows_of > S.indices, -1.0, 1.0))
+            else:
+                S.data[:] = [rng.choice([0.5, -0.25, 2.0, -3.0, 1.0]) for _ in range(S.nnz)]
+            cs = dict(base, diag=diag, values='antisymmetric' if signed else 'random')
             ctx.mark(cs)
             oracle(ctx, 'RS', n, arcs, split.RS(S), cs, indep_dom=sym)
             oracle(ctx, 'RS/second_pass', n, arcs, split.RS(S, second_pass=True), cs, cover=True)
